@@ -46,6 +46,9 @@ type Case struct {
 	// ViaTxn: every request is also looked up through a write transaction, not yet committed, in which the hostname routes
 	// were registered on a router that so far held the path-only routes: the transaction reads its own writes.
 	ViaTxn bool `json:"via_txn,omitempty"`
+	// TxnPaths (with ViaTxn): the other way round - the router holds the hostname routes and the transaction registers the
+	// path-only ones, so the fallback to path-only routes has to read the transaction's own writes
+	TxnPaths bool `json:"txn_paths,omitempty"`
 }
 
 func hasBoth(pats []string) bool {
@@ -98,19 +101,20 @@ func checkCase(c *Case, count bool) error {
 	}
 	var wtx *fox.Txn
 	if c.ViaTxn {
-		var pathOnly []rt.RouteSpec
+		// committed first: the path-only routes (or, with TxnPaths, the hostname routes); the others inside the transaction
+		var first []rt.RouteSpec
 		for _, s := range r.Routes {
-			if strings.HasPrefix(s.Pattern, "/") {
-				pathOnly = append(pathOnly, s)
+			if strings.HasPrefix(s.Pattern, "/") != c.TxnPaths {
+				first = append(first, s)
 			}
 		}
-		if r2, err := rt.New(c.G, pathOnly); err == nil && len(r2.Routes) == len(pathOnly) {
+		if r2, err := rt.New(c.G, first); err == nil && len(r2.Routes) == len(first) {
 			wtx = r2.F.Txn(true)
 			defer wtx.Abort()
 			for _, s := range r.Routes {
-				if !strings.HasPrefix(s.Pattern, "/") {
+				if strings.HasPrefix(s.Pattern, "/") == c.TxnPaths {
 					if _, err := wtx.Handle(s.Method, s.Pattern, r2.Sink.Handler(s.Pattern), rt.RouteOptions(s.TS)...); err != nil {
-						return fmt.Errorf("routes %v: registering the hostname route %s %s inside a write transaction on a router holding the path-only routes: %v", r.Routes, s.Method, s.Pattern, err)
+						return fmt.Errorf("routes %v: registering %s %s inside a write transaction on a router holding the other (hostname or path-only) routes: %v", r.Routes, s.Method, s.Pattern, err)
 					}
 				}
 			}
@@ -162,10 +166,10 @@ func checkCase(c *Case, count bool) error {
 		}
 		if wtx != nil {
 			if o := rt.DoLookup(wtx, q); o.Pattern != wantPat || o.Tsr != want.Tsr {
-				return fmt.Errorf("%sTxn.Lookup of the write transaction that registered the hostname routes returned %v", desc, o)
+				return fmt.Errorf("%sTxn.Lookup of the write transaction that registered part of the routes returned %v", desc, o)
 			}
 			if o := rt.DoReverse(wtx, q); o.Pattern != wantPat || o.Tsr != want.Tsr {
-				return fmt.Errorf("%sTxn.Reverse of the write transaction that registered the hostname routes returned %v", desc, o)
+				return fmt.Errorf("%sTxn.Reverse of the write transaction that registered part of the routes returned %v", desc, o)
 			}
 		}
 		sv := r.ServeReq(q)
@@ -258,6 +262,7 @@ func genCase(t *rapid.T) *Case {
 		c.Routes = append(c.Routes, rt.RouteSpec{Method: m, Pattern: p})
 	}
 	c.ViaTxn = gen.Chance(t, 1, 3, "viatxn")
+	c.TxnPaths = c.ViaTxn && gen.Chance(t, 1, 2, "txnpaths")
 	if gen.Chance(t, 1, 3, "detour") {
 		for i, nd := 0, gen.IntR(t, 1, 2, "ndetour"); i < nd; i++ {
 			src := gen.Pick(t, c.Routes, "dsrc")
